@@ -145,7 +145,20 @@ func TestC07(t *testing.T) {
 				defer wg.Done()
 				for s, sz := range plan[w] {
 					m, id := c07Message(ctx, w, s, sz)
-					nn, err := m.WriteTo(conn)
+					var nn int64
+					var err error
+					switch w % 3 { // the entry points a writer may use on a connection
+					case 0:
+						nn, err = m.WriteTo(conn) // a locally created message (no stream)
+					case 1:
+						var k int
+						k, err = m.WriteToStream(conn, 0) // like an answer to a message received on stream 0
+						nn = int64(k)
+					default:
+						var k int
+						k, err = m.WriteToStreamWithRetry(conn, uint(w), 1)
+						nn = int64(k)
+					}
 					if err != nil {
 						werr.Store(fmt.Errorf("writer %d seq %d: %v", w, s, err))
 						return
